@@ -751,10 +751,17 @@ non-trivial = at least one credential step was processed by a handler (answered 
         (Some(-h), Some(G as i64)),
     ];
     let reps = if args.thorough { 3 } else { 1 };
-    for ai in [1usize, 4, 6] {
+    // the anonymous account has its own (credential-free) path; it must obey its window too
+    let anon_paths: Vec<Vec<Step>> = vec![
+        vec![Step::Begin(Mech::Anonymous), Step::Cred(Cred::Anonymous)],
+        vec![Step::Cred(Cred::Anonymous), Step::Begin(Mech::Anonymous)],
+    ];
+    let anon_ai = accts.len() - 1;
+    for ai in [1usize, 4, 6, anon_ai] {
+        let paths = if ai == anon_ai { &anon_paths } else { &paths };
         for _ in 0..reps {
             for (vf, ex) in &windows {
-                for p in &paths {
+                for p in paths {
                     let t0 = g.fresh_time(ai);
                     let abs = |o: &Option<i64>| o.map(|x| (t0 as i64 + x) as u64);
                     let rtm = &g.w.rt;
